@@ -56,7 +56,7 @@ func candUpdateV2(g *Gen, t *rapid.T, spent map[string]bool) *cand {
 		}
 	}
 	var stake uint32
-	if rapid.IntRange(0, 2).Draw(t, "updv2long") > 0 {
+	if rapid.IntRange(0, 2).Draw(t, "updv2long") > 0 || driving(g) {
 		stake = h + uint32(rapid.IntRange(8000, 90000).Draw(t, "stakelong"))
 	} else {
 		stake = h + k.Params.DPoSConfiguration.DPoSV2DepositCoinMinLockTime + uint32(rapid.IntRange(1, 30).Draw(t, "stakeshort"))
@@ -85,6 +85,30 @@ func forcedIndex(g *Gen, prefix byte) int {
 		n = n*10 + int(c-'0')
 	}
 	return n
+}
+
+// drive mode: work towards an active DPoS 2.0 (long stakes, weighty votes for
+// producers that are not "effective" yet) instead of drawing freely.
+var c28Drive = map[*Gen]bool{}
+
+// SetC28Drive switches the drive mode of the C28 kinds for g.
+func SetC28Drive(g *Gen, on bool) {
+	if on {
+		c28Drive[g] = true
+	} else {
+		delete(c28Drive, g)
+	}
+}
+
+// driving tells whether the drive mode is on and DPoS 2.0 still lacks
+// effective producers.
+func driving(g *Gen) bool {
+	if !c28Drive[g] {
+		return false
+	}
+	st := g.K.Arbiters.State
+	return st.DPoSV2ActiveHeight == ^uint32(0) &&
+		len(st.DposV2EffectedProducers) < g.K.Params.DPoSConfiguration.NormalArbitratorsCount*3/2
 }
 
 // C28Kinds are the kinds above with their weights.
@@ -151,7 +175,11 @@ func candRegisterV2(g *Gen, t *rapid.T, spent map[string]bool) *cand {
 	g.nick++
 	minLock := k.Params.DPoSConfiguration.DPoSV2DepositCoinMinLockTime
 	var stake uint32
-	switch rapid.IntRange(0, 3).Draw(t, "stakeclass") {
+	stakeClass := rapid.IntRange(0, 3).Draw(t, "stakeclass")
+	if driving(g) {
+		stakeClass = 3
+	}
+	switch stakeClass {
 	case 0: // expires within the history
 		stake = h + minLock + uint32(rapid.IntRange(1, 30).Draw(t, "stakeshort"))
 	case 1: // at the limit (rejected)
@@ -204,6 +232,9 @@ func split(t *rapid.T, total common.Fixed64, n int) []common.Fixed64 {
 	for i := 0; i < n-1; i++ {
 		max := int64(rest) - int64(n-1-i)
 		p := common.Fixed64(rapid.Int64Range(1, max).Draw(t, "part"))
+		if rapid.Bool().Draw(t, "evenpart") && int64(total)/int64(n) >= 1 && int64(total)/int64(n) <= max {
+			p = total / common.Fixed64(n)
+		}
 		parts[i] = p
 		rest -= p
 	}
@@ -237,13 +268,39 @@ func candVoting(g *Gen, t *rapid.T, spent map[string]bool) *cand {
 	used := st.UsedDposV2Votes[voter.Stake]
 	remaining := rights - used
 	cands := g.v2Candidates()
+	drive := driving(g)
+	if drive {
+		// producers with a long stake that are not effective yet
+		var want []int
+		for _, i := range cands {
+			p := g.producer(i)
+			if _, eff := st.DposV2EffectedProducers[common.BytesToHexString(p.OwnerPublicKey())]; !eff && p.Info().StakeUntil > h+7200 {
+				want = append(want, i)
+			}
+		}
+		if len(want) > 0 {
+			cands = want
+		} else {
+			drive = false
+		}
+	}
 	if len(cands) == 0 {
 		return nil
 	}
 	dc := k.Params.DPoSConfiguration
+	// at most one bad lock time per transaction, in one transaction out of eight
+	badLock := rapid.IntRange(0, 7).Draw(t, "badlock") == 0
 	lockFor := func(i int) uint32 {
 		until := g.producer(i).Info().StakeUntil
-		switch rapid.IntRange(0, 9).Draw(t, "lockclass") {
+		cls := rapid.IntRange(2, 9).Draw(t, "lockclass")
+		if badLock {
+			badLock = false
+			cls = rapid.IntRange(0, 1).Draw(t, "badlockclass")
+		}
+		if drive {
+			cls = 9
+		}
+		switch cls {
 		case 0: // too short / in the past
 			return h + uint32(rapid.IntRange(0, int(dc.DPoSV2MinVotesLockTime)).Draw(t, "lockbad")) - 1
 		case 1: // beyond the producer's stake
@@ -284,9 +341,18 @@ func candVoting(g *Gen, t *rapid.T, spent map[string]bool) *cand {
 		}
 		return x
 	}
-	switch rapid.IntRange(0, 11).Draw(t, "votingmode") {
+	vmode := rapid.IntRange(0, 11).Draw(t, "votingmode")
+	if drive && remaining > 0 {
+		vmode = vmode % 6 // within / exact
+	}
+	switch vmode {
 	case 0, 1, 2, 3:
-		total := pos(common.Fixed64(rapid.Int64Range(1, int64(pos(remaining))).Draw(t, "total")))
+		// an eighth .. all of the remaining rights (rapid's integers lean to
+		// tiny values, which never make a producer "effective")
+		total := pos(remaining / 8 * common.Fixed64(rapid.IntRange(1, 8).Draw(t, "eighths")))
+		if rapid.IntRange(0, 3).Draw(t, "tinyvote") == 0 {
+			total = pos(common.Fixed64(rapid.Int64Range(1, int64(pos(remaining))).Draw(t, "total")))
+		}
 		pl.Contents = append(pl.Contents, mkContent(total, "a"))
 	case 4, 5:
 		mode = "exact"
